@@ -176,8 +176,8 @@ fn seq_fresh(rng: &mut StdRng, id: String, len: usize, out: &mut Vec<Value>, per
     out.append(&mut rec.out);
     let n = bdd.nodes.len();
     let picks: Vec<usize> = if n <= 12 { (0..n).collect() } else { (0..12).map(|_| rng.gen_range(0..n)).collect() };
-    for h in picks {
-        out.push(query_json(rng, &bdd, nv, Term(h), format!("{}?{}", id, h)));
+    for (k, h) in picks.into_iter().enumerate() {
+        out.push(query_json(rng, &bdd, nv, Term(h), format!("{}?{}.{}", id, h, k)));
     }
 }
 
@@ -228,9 +228,9 @@ fn seq_adf(rng: &mut StdRng, id: String, len: usize, out: &mut Vec<Value>) {
     }
     out.append(&mut rec.out);
     let nn = adf.bdd.nodes.len();
-    for _ in 0..8 {
+    for k in 0..8 {
         let h = rng.gen_range(0..nn);
-        out.push(query_json(rng, &adf.bdd, n, Term(h), format!("{}?{}", id, h)));
+        out.push(query_json(rng, &adf.bdd, n, Term(h), format!("{}?{}.{}", id, h, k)));
     }
 }
 
